@@ -58,7 +58,10 @@ the tree with the `fix:` commits of the time.
 The raw logs of the confirmation runs are in `seeded/logs/`.
 
 {det} of {n} confirmed changes are reported by the quick tier of the check of their own
-property. "obligation" = a public proof obligation that is discharged on the unchanged
+property - *after* the strengthening described below the table. At first sight the checks
+reported 32 of 39 (first round), 31 of 40 (second) and 28 of 40 (third); every miss was in
+a bounded part (a stand-in that lacked the triggering input or sequence) or an engine
+error of the harness, never a proved clause that kept proving on broken code. "obligation" = a public proof obligation that is discharged on the unchanged
 tree is refuted (named in the replay file); "stand-in" = the bounded stand-in produced a
 failing input that is replayed against the changed code. {n_obl} changes refute at least
 one obligation ({n_obl - n_both} of them only that), {n_std} produce a failing input
